@@ -71,6 +71,8 @@ pub struct Report {
     pub findings: Vec<Finding>,
     /// violations counted but not individually listed (beyond caps)
     pub extra_violations: u64,
+    /// findings that reproduced identically when replayed from scratch
+    pub validated_findings: u64,
     pub machinery: Vec<String>,
     pub t0: Instant,
     pub seed: i64,
@@ -96,6 +98,7 @@ impl Report {
             assumptions: vec![],
             findings: vec![],
             extra_violations: 0,
+            validated_findings: 0,
             machinery: vec![],
             t0: Instant::now(),
             seed,
@@ -282,11 +285,17 @@ impl Report {
             println!("{}", l);
         }
         if !self.machinery.is_empty() {
+            // a violation that reproduced on replay is a verdict even if other parts of the run
+            // had machinery trouble (typically caused by the same defect: aborts, divergence of
+            // executions that corrupt shared state); without one there is no verdict
+            let verdict_stands = n_unknown > 0 && self.validated_findings > 0;
             for m in self.machinery.iter().take(10) {
-                println!("MACHINERY-ERROR: {}", m);
+                println!("{}: {}", if verdict_stands { "MACHINERY-WARNING" } else { "MACHINERY-ERROR" }, m);
             }
-            println!("RESULT property={} tier={} machinery failure (no verdict) wall={:.1}s", self.property, self.tier, wall);
-            std::process::exit(2);
+            if !verdict_stands {
+                println!("RESULT property={} tier={} machinery failure (no verdict) wall={:.1}s", self.property, self.tier, wall);
+                std::process::exit(2);
+            }
         }
         if n_unknown > 0 {
             println!(
